@@ -17,7 +17,21 @@ ORDERED = re.compile(r'^ {0,3}([0-9]{1,9})[.)](?:[ \t]+(\S)?|$)')    # 5.2 (ASCI
 QUOTE = re.compile(r'^ {0,3}>')                                      # 5.1
 HTML = re.compile(r'^ {0,3}<')                                       # 4.6 (over-approx.: any line starting with <)
 CODE = re.compile(r'^(?: {4}| {0,3}\t)')                             # 4.4
-ENTITY = re.compile(r'&(?:#[0-9]{1,7}|#[xX][0-9a-fA-F]{1,6}|[A-Za-z0-9]{1,32});')  # 6.2
+_ENTITY_SHAPE = re.compile(r'&(?:#[0-9]{1,7}|#[xX][0-9a-fA-F]{1,6}|([A-Za-z0-9]{1,32}));')  # 6.2
+
+
+class _Entity:
+    """6.2: a numeric reference, or '&' + the exact name of an HTML5 entity + ';' (anything else is literal text)."""
+    @staticmethod
+    def search(text):
+        from html.entities import html5
+        for m in _ENTITY_SHAPE.finditer(text):
+            if m.group(1) is None or (m.group(1) + ';') in html5:
+                return m
+        return None
+
+
+ENTITY = _Entity
 
 
 def line_reason(line, k):
